@@ -176,7 +176,11 @@ def _gen_op(r, i, kinds, depth=0):
                 "body": body, "raise_inside": r.chance(0.15)}
     if k == "defaults":
         return {"op": "defaults", "tree": _gen_defaults_tree(r, i),
-                "wrap": r.fork("wrap").pick([None] * 5 + ["proxy", "userdict", "ordered", "mixed"])}
+                "wrap": r.fork("wrap").pick([None] * 5 + ["proxy", "userdict", "ordered", "mixed"]),
+                # the SAME mapping object as an earlier update_defaults call is passed again (a plugin
+                # re-registering its defaults dict): it is the most recent defaults layer again
+                # (round 16, S-C19p: every call got a fresh dict)
+                "again": r.fork("again").pick([None, None, None, 0, 1, 2])}
     if k == "refresh":
         return {"op": "refresh"}
     if k == "get":
@@ -396,6 +400,7 @@ def run(plan):
         D = [norm(plain(d)) for d in dfl]
         kinds = []
         n_mut = [0]
+        passed = []       # (mapping object, op) of earlier update_defaults calls
         dirty_since_refresh = [False]
 
         def viol(oracle, detail, sig):
@@ -563,6 +568,11 @@ def run(plan):
                 compare(tag + ":exit", "with_exit")
             elif k == "defaults":
                 tree = wrap(copy.deepcopy(op["tree"]), op.get("wrap"))
+                if op.get("again") is not None and passed:
+                    tree, op = passed[op["again"] % len(passed)]
+                    bump(probes, "same_defaults_object_passed_again")
+                else:
+                    passed.append((tree, op))
                 if op.get("wrap"):
                     bump(probes, "defaults_with_non_dict_mappings")
                 try:
